@@ -330,6 +330,7 @@ const SITE_NOTES: &[&str] = &[
      sg721-updatable execute_enable_updatable: checked_fair_burn(ENABLE_UPDATABLE_FEE, None) [Site::EnableUpdatable, on a collection migrated from sg721-base]; \
      sg-eth-airdrop instantiate: fair_burn(env.contract.address, INSTANTIATION_FEE, None) [Site::AirdropInit]",
     "not driven as fee sites: ibc_denom_fair_burn has no caller in contracts/ or packages/ (direct calls only); sg721-updatable UpdateTokenMetadata is nonpayable in this tree (no fee is charged, so there is nothing to dispose of); no call site passes a developer to fair_burn / checked_fair_burn (always None), the open-edition minters are the only ones that pass one to distribute_mint_fees",
+    "prior balance of the calling contract: every site shape is also run at one representative fee with the contract already holding 1 / fee-1 / fee / 10*fee of the fee denom and 1 / 10*fee of the other denom (bank send to its address, for instantiate sites to the address the contract will get) and, for the factories and the shuffle, coins left behind by an earlier accepted over-payment; payments fee-1 / fee / fee+1 / none / wrong denom / two coins; an accepted call must leave the contract's own balance in every denom at least where it was (key contract-balance-used)",
     "the decoded MsgFundFairburnPool sender is read from the stargate keeper: an accepted message was signed by the emitting contract (the keeper refuses anything else), a refused one names the sender in the refusal",
 ];
 
